@@ -36,7 +36,10 @@ REQUIRED_REACH = ["smoothed_column_proportions", "smoothed_column_percentages",
                   "class:window_too_large", "class:window_below_2"]
 BATCH = 40
 KINDS = ["cat|cat_date", "cat|cat_date+ins", "mr|cat_date", "cat|cat_date+mean",
-         "cat_date(strand)+mean", "cat|cat(not date)", "cat(strand, not date)+mean"]
+         "cat_date(strand)+mean", "cat|cat(not date)", "cat(strand, not date)+mean",
+         # periods of time that are no categorical-date dimension either
+         "cat|datetime(not date)", "datetime(strand, not date)+mean", "cat|text(not date)",
+         "cat|binned(not date)+mean"]
 
 _contract = {"evals": 0, "violations": []}
 
@@ -128,7 +131,19 @@ def make_case(unit):
     cats.append({"id": 99, "name": "m", "missing": True, "numeric_value": None})
     nonempty = [k for k in range(L) if k not in cfg["empty"]] or [L]
     ans = np.array([g.pick(nonempty + [L] * 0) if nonempty != [L] else L for _ in range(N)])
-    tvar = sim.CatVar("wave", cats, ans, "cat_date" if date else "cat")
+    tkind = "cat_date" if date else next(
+        (k_ for k_ in ("datetime", "text", "binned") if k_ in kind), "cat")
+    if tkind in ("datetime", "text", "binned"):
+        # enum dimensions: element ids are positions, elements carry a value
+        for k, c in enumerate(cats):
+            c["id"] = k
+            c["value"] = ({"?": -1} if c["missing"] else
+                          "20%02d-01-01" % (10 + k) if tkind == "datetime" else
+                          "txt%d" % k if tkind == "text" else [k * 5, k * 5 + 5])
+        tvar = sim.CatVar("wave", cats, ans, tkind, None, None,
+                          resolution="D" if tkind == "datetime" else None)
+    else:
+        tvar = sim.CatVar("wave", cats, ans, tkind)
     tr = {}
     sm = {"function": "one_sided_moving_avg", "window": cfg["window"]}
     mset, numvar = (), None
